@@ -124,6 +124,8 @@ pub fn run(ctx: &mut Ctx) {
     chunks(ctx);
     min_offsets(ctx);
     roundtrips(ctx);
+    // index files against the byte-level models (BAI / CSI / tabix / gzi / fai / crai)
+    super::c17_index::run(ctx);
 }
 
 fn check_containment(ctx: &mut Ctx, ms: u8, d: u8, f: (usize, usize), r: (usize, usize), fb: usize, rbins: &[usize]) {
@@ -717,6 +719,9 @@ fn index_text_roundtrips(ctx: &mut Ctx) {
 }
 
 fn replay(ctx: &mut Ctx, case: &[String]) {
+    if super::c17_index::replay(ctx, case) {
+        return;
+    }
     match case.first().map(|s| s.as_str()) {
         Some("containment") => {
             let a: Vec<usize> = case[1..].iter().map(|s| s.parse().unwrap()).collect();
